@@ -25,7 +25,8 @@ type WriteEvent struct {
 	Op    string `json:"op"`
 	Key   string `json:"key,omitempty"` // hex of the full key (first key for batches)
 	NKeys int    `json:"nkeys,omitempty"`
-	Class string `json:"class,omitempty"` // metadata / data
+	Class string `json:"class,omitempty"` // metadata / data / LOG (log append)
+	TKC   int    `json:"tkc,omitempty"`   // data keys: the type-specific key class byte (labelmap: 186 block, 187 index, 237 max label, 238 repo max label, 239 next label); log appends: entry type
 }
 
 var (
@@ -45,6 +46,7 @@ func Arm(n uint64, after bool) {
 	mu.Lock()
 	crashAt = count + n
 	crashAft = after
+	tornBytes = 0
 	mu.Unlock()
 }
 
@@ -117,6 +119,14 @@ func classify(k []byte) string {
 	}
 }
 
+// tkeyClass returns the type-specific key class of a data key (0 otherwise).
+func tkeyClass(k []byte) int {
+	if len(k) > 5 && k[0] == 1 {
+		return int(k[5])
+	}
+	return 0
+}
+
 // do runs one write under the lock so numbering, trace order and crash point are
 // consistent.
 func do(op string, key []byte, nkeys int, f func() error) error {
@@ -129,7 +139,7 @@ func do(op string, key []byte, nkeys int, f func() error) error {
 	}
 	err := f()
 	if tracing {
-		trace = append(trace, WriteEvent{N: n, Op: op, Key: hex.EncodeToString(key), NKeys: nkeys, Class: classify(key)})
+		trace = append(trace, WriteEvent{N: n, Op: op, Key: hex.EncodeToString(key), NKeys: nkeys, Class: classify(key), TKC: tkeyClass(key)})
 	}
 	if crashAt != 0 && n == crashAt && crashAft {
 		CrashExit()
